@@ -1157,18 +1157,7 @@ def rule_defaults(ctx, rep: Report, rid="M4"):
             and ends_break and rec_ok and len(rem) == 1
         detail = f"iterates {it}; test {[unparse(i.test) for i in inner_if]}; ends with break: {ends_break}; recursion keeps backup: {rec_ok}; removes the tail argument: {len(rem) == 1}"
     rep.add(rid, "defaults:peels defaulted arguments from the tail, one arity per call, stopping at the first non-defaulted one", ok_loop, detail, loc)
-    wu = prog.method("MatlabWrapper", "_wrapper_unwrap_arguments")
-    ap = func_params(wu)[1]
-    l2 = [l for l in wu.body if isinstance(l, ast.For) and unparse(l.iter) == f"{ap}.backup.list()"]
-    ok2 = False
-    if l2:
-        v = l2[0].target.id
-        tests = [i for i in l2[0].body if isinstance(i, ast.If) and any(isinstance(x, ast.Continue) for x in i.body)]
-        ok2 = len(tests) == 1 and unparse(tests[0].test).replace(" ", "").replace("(", "").replace(")", "") == \
-            f"{v}.defaultisnotNoneand{v}.namenotinexplicit_arg_names".replace("explicit_arg_names", _explicit_names_var(wu, ap)) \
-            and any(isinstance(x, ast.AugAssign) and unparse(x.value) == f"{v}.default" for x in tests[0].body)
-    rep.add(rid, "defaults:the call's parameter list is rebuilt from the saved full list, inserting the original default text exactly for omitted parameters",
-            ok2, "loop over args.backup.list() with `default is not None and name not in <explicit names>` -> default text", f"{ci.mod.rel}:{wu.lineno}")
+    # (what the call receives per parameter is decided path by path in rule_call_arguments_per_parameter)
 
 
 def _explicit_names_var(fn, ap) -> str:
@@ -1303,19 +1292,7 @@ def rule_marshalling_table(ctx, rep: Report, rid="M7"):
             ("shared", "unwrap_shared_ptr", False), ("value", "unwrap<", False)]
     rep.add(rid, "unwrap table:enum, reference, raw pointer, shared/object, value - in this priority, each with its unwrap function", chain == want,
             f"found {chain}", f"{ci.mod.rel}:{ua.lineno}")
-    wu = prog.method("MatlabWrapper", "_wrapper_unwrap_arguments")
-    t = unparse(wu).replace(" ", "").replace("\n", "")
-    cond_ok = "notself.is_ref(" in t and "self.is_shared_ptr(" in t and "self.is_ptr(" in t and "self.can_be_pointer(" in t and "notself.is_enum(" in t
-    star_ok = False
-    for a in ast.walk(wu):
-        if isinstance(a, ast.AugAssign) and isinstance(a.value, ast.Constant) and a.value.value == "*":
-            gs = [g for g, pol in guards_of(a, wu, include_exits=False) if pol]
-            if gs and gs[-1].replace(" ", "").endswith("==''"):
-                marker = gs[-1].split("==")[0].strip()
-                srcs = sorted(unparse(st.value) for st in local_assignments(wu).get(marker, []) if isinstance(st, ast.Assign))
-                star_ok = len(srcs) == 2 and srcs[0].endswith(".ctype.is_ptr") and srcs[1].endswith(".ctype.is_shared_ptr")
-    rep.add(rid, "call expression:a by-value parameter held in a pointer-like local is dereferenced, pointers / references / enums / values are passed as they are",
-            cond_ok and star_ok, f"predicates present: {cond_ok}; `*` exactly when neither * nor @ marker: {star_ok}", f"{ci.mod.rel}:{wu.lineno}")
+    # (the `*` of the call expression is decided path by path in rule_call_arguments_per_parameter)
     # every role that unwraps arguments supplies the enum-resolution context
     gc = prog.method("MatlabWrapper", "generate_collector_function")
     n = 0
@@ -1760,3 +1737,178 @@ def rule_callee_spelling(ctx, rep: Report, rid="M10"):
         rep.add(rid, f"callee spelling:{kname}", ok, why, f"{ci.mod.rel}:{last.lineno}", nontrivial=not ok or txt.endswith("to_cpp()"))
     if n < 3:
         raise AnalysisError(f"{rep.prop}/{rid}: only {n} kinds of callable classified")
+
+
+# ------------------------------------------------------------------------------------------ per-element path analysis
+class _Subst(ast.NodeTransformer):
+    def __init__(self, env):
+        self.env = env
+
+    def visit_Name(self, n):
+        if isinstance(n.ctx, ast.Load) and n.id in self.env:
+            return ast.parse(unparse(self.env[n.id]), mode="eval").body
+        return n
+
+
+def _subst(e: ast.AST, env: Dict[str, ast.AST]) -> ast.AST:
+    c = ast.parse(unparse(e), mode="eval").body
+    return ast.fix_missing_locations(_Subst(env).visit(c))
+
+
+def _text_atoms(e: ast.AST) -> List[Tuple[str, str]]:
+    """A concatenation as a list of ('const', text) / ('expr', source) atoms, adjacent constants merged."""
+    out: List[Tuple[str, str]] = []
+
+    def add(x):
+        if isinstance(x, ast.BinOp) and isinstance(x.op, ast.Add):
+            add(x.left)
+            add(x.right)
+        elif isinstance(x, ast.Constant) and isinstance(x.value, str):
+            if x.value:
+                out.append(("const", x.value))
+        elif isinstance(x, ast.JoinedStr):
+            for v in x.values:
+                add(v.value if isinstance(v, ast.FormattedValue) else v)
+        else:
+            out.append(("expr", unparse(x)))
+    add(e)
+    merged: List[Tuple[str, str]] = []
+    for k, t in out:
+        if k == "const" and merged and merged[-1][0] == "const":
+            merged[-1] = ("const", merged[-1][1] + t)
+        else:
+            merged.append((k, t))
+    return merged
+
+
+def _element_paths(fn, loop: ast.For, accumulators: Set[str]):
+    """All paths through one iteration of `loop`: (facts [(expr, polarity)], pieces [ast expr] appended to the
+    accumulators, in order).  Locals assigned on the way are substituted into later expressions and tests."""
+    from .rules_xml import _split_facts
+    paths = []
+
+    def run(stmts, nxt, env, facts, pieces):
+        for i, st in enumerate(stmts):
+            rest = [stmts[i + 1:]] + nxt
+            if isinstance(st, ast.If):
+                test = _subst(st.test, env)
+                for pol, blk in ((True, st.body), (False, st.orelse)):
+                    run(blk, rest, dict(env), facts + _split_facts(test, pol), list(pieces))
+                return
+            if isinstance(st, ast.Continue):
+                paths.append((facts, pieces))
+                return
+            if isinstance(st, (ast.Break, ast.Return, ast.Raise)):
+                return
+            if isinstance(st, ast.Assign) and len(st.targets) == 1 and isinstance(st.targets[0], ast.Name):
+                env[st.targets[0].id] = _subst(st.value, env)
+            elif isinstance(st, ast.AugAssign) and isinstance(st.target, ast.Name) and isinstance(st.op, ast.Add):
+                if st.target.id in accumulators:
+                    pieces.append(_subst(st.value, env))
+                elif st.target.id in env:
+                    env[st.target.id] = ast.BinOp(left=env[st.target.id], op=ast.Add(), right=_subst(st.value, env))
+            elif isinstance(st, ast.Expr) and isinstance(st.value, ast.Call) and isinstance(st.value.func, ast.Attribute) \
+                    and st.value.func.attr == "append" and isinstance(st.value.func.value, ast.Name) and st.value.func.value.id in accumulators and st.value.args:
+                pieces.append(_subst(st.value.args[0], env))
+        if nxt:
+            run(nxt[0], nxt[1:], env, facts, pieces)
+        else:
+            paths.append((facts, pieces))
+    run(loop.body, [], {}, [], [])
+    return paths
+
+
+def _empty_markers(facts) -> Tuple[Set[str], bool]:
+    """Which expressions the facts establish to be '' / falsy, and whether the facts contradict themselves on one of them."""
+    empty: Set[str] = set()
+    truthy: Set[str] = set()
+
+    def mark_empty(x):
+        if isinstance(x, ast.BoolOp) and isinstance(x.op, ast.Or):
+            for v in x.values:
+                mark_empty(v)
+        else:
+            empty.add(unparse(x))
+    for e, pol in facts:
+        if isinstance(e, ast.Compare) and len(e.ops) == 1 and isinstance(e.comparators[0], ast.Constant) and e.comparators[0].value == "":
+            if (isinstance(e.ops[0], ast.Eq) and pol) or (isinstance(e.ops[0], ast.NotEq) and not pol):
+                mark_empty(e.left)
+            else:
+                truthy.add(unparse(e.left))
+        elif isinstance(e, (ast.Attribute, ast.Name)):
+            (truthy.add if pol else empty.add)(unparse(e))
+    return empty, bool(empty & truthy)
+
+
+def rule_call_arguments_per_parameter(ctx, rep: Report, rid="M4"):
+    """What the C++ call receives for each declared parameter, decided path by path through one iteration of the loop over
+    the saved full parameter list: (1) for a parameter that is omitted at this arity and has a default, exactly the default's
+    original text - nothing in front of it, nothing after; (2) for every other parameter its name, with a `*` in front exactly
+    on paths where the facts establish that the type carries neither the shared (`*`) nor the raw (`@`) marker and that the
+    by-value-object predicate holds."""
+    ci, prog = mw(ctx)
+    wu = prog.method("MatlabWrapper", "_wrapper_unwrap_arguments")
+    ap = func_params(wu)[1]
+    loops = [l for l in wu.body if isinstance(l, ast.For) and isinstance(l.target, ast.Name) and ".backup" in unparse(l.iter) and unparse(l.iter).startswith(ap)]
+    loc = f"{ci.mod.rel}:{wu.lineno}"
+    if len(loops) != 1:
+        raise AnalysisError("_wrapper_unwrap_arguments: loop over the saved full parameter list (args.backup) not found")
+    loop = loops[0]
+    v = loop.target.id
+    rets = [r.value for r in walk_no_nested(wu) if isinstance(r, ast.Return) and r.value is not None]
+    acc = {x.id for r in rets for x in ast.walk(r) if isinstance(x, ast.Name)} & \
+        {st.targets[0].id for st in wu.body if isinstance(st, ast.Assign) and len(st.targets) == 1 and isinstance(st.targets[0], ast.Name)}
+    # the list of names given at this arity
+    la = local_assignments(wu)
+
+    def is_given_names(x) -> bool:
+        e = x
+        if isinstance(e, ast.Name):
+            vs = [st.value for st in la.get(e.id, []) if isinstance(st, ast.Assign)]
+            e = vs[0] if len(vs) == 1 else e
+        t = unparse(e).replace(" ", "")
+        return t == f"{ap}.names()" or (isinstance(e, ast.ListComp) and unparse(e.generators[0].iter).replace(" ", "") == f"{ap}.list()"
+                                       and unparse(e.elt).endswith(".name"))
+    paths = _element_paths(wu, loop, acc)
+    bad_default, bad_name, bad_star = [], [], []
+    n_omitted = n_explicit = n_star = 0
+    for facts, pieces in paths:
+        atoms: List[Tuple[str, str]] = []
+        for p_ in pieces:
+            atoms += _text_atoms(p_)
+        atoms = [(k, t.replace(",", "")) if k == "const" else (k, t) for k, t in atoms]
+        atoms = [(k, t) for k, t in atoms if not (k == "const" and t == "")]
+        has_default = any(pol and unparse(e).replace(" ", "") == f"{v}.defaultisnotNone" for e, pol in facts) or \
+            any((not pol) and unparse(e).replace(" ", "") == f"{v}.defaultisNone" for e, pol in facts)
+        not_given = any(pol and isinstance(e, ast.Compare) and len(e.ops) == 1 and isinstance(e.ops[0], ast.NotIn) and unparse(e.left) == f"{v}.name"
+                        and is_given_names(e.comparators[0]) for e, pol in facts)
+        empty, contradictory = _empty_markers(facts)
+        if contradictory:
+            continue
+        if has_default and not_given:
+            n_omitted += 1
+            if atoms != [("expr", f"{v}.default")]:
+                bad_default.append(atoms)
+            continue
+        n_explicit += 1
+        star = bool(atoms) and atoms[0] == ("const", "*")
+        core = atoms[1:] if star else atoms
+        if core != [("expr", f"{v}.name")]:
+            bad_name.append(atoms)
+        if star:
+            n_star += 1
+            ftxt = [(unparse(e).replace(" ", ""), pol) for e, pol in facts]
+            neither = f"{v}.ctype.is_shared_ptr" in empty and f"{v}.ctype.is_ptr" in empty
+            pred = any(t.startswith("self.is_ref(") and not pol for t, pol in ftxt) and any(t.startswith("self.is_enum(") and not pol for t, pol in ftxt) \
+                and any(("self.can_be_pointer(" in t or "self.is_shared_ptr(" in t) and pol for t, pol in ftxt)
+            if not (neither and pred):
+                bad_star.append((sorted(empty), [t for t, pol in ftxt][:6]))
+    rep.add(rid, "defaults:an omitted parameter contributes exactly its default's original text", n_omitted >= 1 and not bad_default,
+            f"{n_omitted} path(s) for an omitted defaulted parameter; contributions other than `{v}.default`: {bad_default[:2]}: anything glued to the default "
+            f"(a `*`, the name) changes the expression the declared entity is called with", loc)
+    rep.add(rid, "defaults:every other parameter contributes its own name", n_explicit >= 1 and not bad_name,
+            f"{n_explicit} path(s); contributions: {bad_name[:2]}", loc)
+    rep.add("M7" if rep.prop == "C06" else rid, "call expression:`*` in front of a name exactly for a by-value object (no `*`/`@` marker, not a reference, not an enum)",
+            n_star >= 1 and not bad_star,
+            f"{n_star} path(s) emit `*`; on {len(bad_star)} of them the facts do not establish that both markers are empty and that the object predicate holds: "
+            f"{bad_star[:1]}", loc)
